@@ -1,0 +1,40 @@
+//go:build verif
+
+// Contracts for the verifier in /verif (comment-only file; contributes no declarations).
+package streamtypes
+
+// C04 / C05: a transaction knows two things about the message in hand: the direction of the flows it is walking
+// (streamType) and the message its actions are collected for (actionType). An early response turns the walk to the
+// response direction (SetType) while the actions still belong to the on-request message. Executing a flow relies on that:
+// it appends to the action list of actionType only, and the message handler hands over only that list (the other one is
+// a nil pointer), so a setter that touches more than its own field crashes the engine on an accepted configuration.
+//@ func (*APIStream).GetType
+//@   prop C04, C05
+//@   requires s != nil
+//@   modifies nothing
+//@   ensures[the-walk] result == s.streamType
+//@ func (*APIStream).GetActionsType
+//@   prop C04, C05
+//@   requires s != nil
+//@   modifies nothing
+//@   ensures[the-message] result == s.actionType
+//@ func (*APIStream).SetType
+//@   prop C04, C05
+//@   requires s != nil
+//@   modifies s.streamType
+//@   ensures[turns-the-walk-only] s.streamType == streamType
+//@ func (*APIStream).SetActionsType
+//@   prop C04, C05
+//@   requires s != nil
+//@   modifies s.actionType
+//@   ensures[the-message-only] s.actionType == streamType
+//@ func (*APIStream).SetRequest
+//@   prop C04, C05
+//@   requires s != nil
+//@   modifies s.streamType, s.actionType, s.Request
+//@   ensures[an-on-request-message] s.streamType == publictypes.StreamTypeRequest && s.actionType == publictypes.StreamTypeRequest && s.Request == request
+//@ func (*APIStream).SetResponse
+//@   prop C04, C05
+//@   requires s != nil
+//@   modifies s.streamType, s.actionType, s.Response
+//@   ensures[an-on-response-message] s.streamType == publictypes.StreamTypeResponse && s.actionType == publictypes.StreamTypeResponse && s.Response == response
